@@ -6,7 +6,8 @@ from core.driver import driver
 from e2e import fsck as fsckmod
 from . import rel
 
-EXPECTED = ["C10_must", "C10_mustnot", "C10_filtered", "C10_group_any_variant", "C10_variant_size", "C10_unconfigured_component"]
+EXPECTED = ["C10_must", "C10_mustnot", "C10_filtered", "C10_group_any_variant", "C10_variant_size", "C10_unconfigured_component",
+            "C10_sources_only", "C10_binaries_only", "C10_unconfigured_arch"]
 LEVEL = "proof"
 RULE = ("world = random universe of 2-4 components (incl. nested) and 2-4 architectures (no name a substring of another), 1-2 "
         "codenames, a configuration selecting per component an architecture subset and/or sources, Release/InRelease files "
